@@ -103,6 +103,11 @@ def gen_spec(rng, thorough=False, force=None):
 			'ext_supply': (not has_pred[l]) or (rng.random() < force.get('pextsup', .08)),
 			'demand': demand, 'dis': dis,
 		}
+		# cost FUNCTIONS (callables) instead of rates, as polynomials the model can evaluate exactly
+		if rng.random() < force.get('pcostfn', .12):
+			nodes[str(l)]['hfn'] = [rng.choice(['0', '1/2', '1']), rng.choice(['0', '1', '2']), rng.choice(['0', '1/2', '1'])]
+		if rng.random() < force.get('pcostfn', .12):
+			nodes[str(l)]['pfn'] = [rng.choice(['0', '1']), rng.choice(['0', '-1', '-3']), rng.choice(['0', '1/2', '1'])]
 	return {'kind': kind, 'labels': labels, 'edges': edges, 'nodes': nodes, 'T': T}
 
 
@@ -116,6 +121,10 @@ def spec_flags(spec):
 			fl.append('dis:' + nd['dis']['type'])
 		if nd['cap'] not in (None, '0'):
 			fl.append('capacity')
+		if nd.get('hfn'):
+			fl.append('holding-cost-function')
+		if nd.get('pfn'):
+			fl.append('stockout-cost-function')
 	return fl
 
 
@@ -157,6 +166,10 @@ def build_py(spec, relabel=None):
 			n.inventory_policy = Policy(type='FQ', order_quantity=num(pol['a']), node=n)
 		if nd['demand'] is not None:
 			n.demand_source = DemandSource(type='D', demand_list=[num(x) for x in nd['demand']])
+		if nd.get('hfn'):
+			n.local_holding_cost_function = (lambda cs: (lambda x: sum(c * x ** k for k, c in enumerate(cs))))([float(F(c)) for c in nd['hfn']])
+		if nd.get('pfn'):
+			n.stockout_cost_function = (lambda cs: (lambda x: sum(c * x ** k for k, c in enumerate(cs))))([float(F(c)) for c in nd['pfn']])
 		if nd['dis'] is not None:
 			n.disruption_process = DisruptionProcess(random_process_type='E', disruption_type=nd['dis']['type'],
 													 disruption_state_list=list(nd['dis']['list']))
@@ -311,7 +324,7 @@ def model_request(spec, exo_from=None):
 					  'cap': nd['cap'], 'dtype': nd['dis']['type'] if nd['dis'] else None,
 					  'h': nd['h'] or '0', 'p': nd['p'] or '0', 'ht': nd['ht'], 'rev': nd['rev'] or '0',
 					  'initIL': nd['initIL'], 'initOrders': nd['initOrders'] or '0',
-					  'initShipments': nd['initShipments'] or '0'})
+					  'initShipments': nd['initShipments'] or '0', 'hFn': nd.get('hfn'), 'pFn': nd.get('pfn')})
 	hist = []
 	for t in range(spec['T']):
 		row = []
@@ -547,11 +560,12 @@ def oracle_C05(spec, tr):
 			l = labels[i]
 			cfg = spec['nodes'][str(l)]
 			held = pos_(nd['il']) + sum((st['edges'][e]['odi'] for e in outE[i]), F(0))
-			hc = rate(l, 'h') * held
+			poly = lambda cs, x: sum((F(c) * x ** k for k, c in enumerate(cs)), F(0))
+			hc = poly(cfg['hfn'], held) if cfg.get('hfn') else rate(l, 'h') * held
 			for e in inE[i]:
 				if edges[e][0] is not None:
 					hc += rate(labels[edges[e][0]], 'h') * (st['edges'][e]['rm'] + st['edges'][e]['idi'])
-			sc = rate(l, 'p') * pos_(-nd['il'])
+			sc = poly(cfg['pfn'], nd['il']) if cfg.get('pfn') else rate(l, 'p') * pos_(-nd['il'])
 			ht = rate(l, 'h') if cfg['ht'] is None else F(cfg['ht'])
 			ithc = ht * sum((sum(st['edges'][e]['ispl'], F(0)) for e in outE[i] if edges[e][1] is not None), F(0))
 			rv = rate(l, 'rev') * sum((st['edges'][e]['os'] for e in outE[i]), F(0))
